@@ -23,6 +23,7 @@ import io
 import itertools
 import json
 import os
+import random
 import re
 import shutil
 import tempfile
@@ -72,8 +73,16 @@ class C01(Check):
                  'invariant')
     rule = ('E1 cases = every one-column frame with 0..R cells (R=3 quick; 4 '
             'thorough for alphabets <= 4) over 22 column families + 28 '
-            'many-category columns x field names (quick: a, "b c"; thorough: '
-            '6 names) and, thorough, every ordered pair of 18 families x 2 '
+            'many-category columns x field names (quick: a, and "b c" with '
+            '0..2 rows; thorough: 6 names); 18 tz-aware families (7 fixed '
+            'offsets of every sign x minutes class + 2 DST zones, us and ns) '
+            'with 0..2 (thorough 3) rows; 2,236 structured-string columns '
+            'for the rex-on pipelines (every ordered pair / triple of 20 '
+            'special characters in a varying position, letters/digits/mixed, '
+            'tails, columns either side of max_punc_in_group=5, '
+            'max_strings_in_group=10, MAX_VRLE_RANGE=2, MAX_GROUPS=99, '
+            'do_all=100; options covered pairwise in quick, fully in '
+            'thorough) and, thorough, every ordered pair of 18 families x 2 '
             'rows x 3-value sub-alphabets; each case runs 2 discoveries and '
             '16 verification pipelines. E3 cases = every one-column frame '
             '(0..2 rows quick, 0..3 thorough) x every sequence of D '
@@ -115,7 +124,17 @@ class C01(Check):
         if tier == 'quick':
             return [('e1-a', 'E1, one-column frames named "a", 0..3 rows, '
                              '2 discoveries + 16 pipelines each'),
-                    ('e1-bc', 'E1, one-column frames named "b c"'),
+                    ('e1-bc', 'E1, one-column frames named "b c", 0..2 rows'),
+                    ('e1-tz', 'E1, tz-aware columns over the offset alphabet '
+                              '(7 fixed offsets of every sign x minutes '
+                              'class, 2 named zones across a DST transition) '
+                              'x {us, ns}, 0..2 rows'),
+                    ('e1-rexs', 'E1 (rex-on pipelines), structured strings: '
+                                'every special character in a varying '
+                                'punctuation position next to every other '
+                                'one, varying letters/digits, optional '
+                                'tails, columns either side of rexpy\'s size '
+                                'constants'),
                     ('e3-d2', 'E3, all 25 two-operation sequences on every '
                               'one-column frame with 0..2 rows and every '
                               'many-category column'),
@@ -128,6 +147,10 @@ class C01(Check):
                                   'a fresh state')]
         return [('e1-a', 'E1, one-column frames named "a", 0..4 rows for '
                          'alphabets <= 4, else 0..3'),
+                ('e1-tz', 'E1, tz-aware columns over the offset alphabet x '
+                          '{us, ns}, 0..3 rows'),
+                ('e1-rexs', 'E1 (rex-on pipelines), structured strings with '
+                            'ordered triples, object and categorical'),
                 ('e3-d2', 'E3, two-operation sequences, frames 0..3 rows'),
                 ('e3-frames', 'E3 over frames with the same column names '
                               '(one or two earlier frames, 22 families)'),
@@ -154,8 +177,24 @@ class C01(Check):
             for fr in self._singles(tier, ['a']):
                 yield {'mode': 'e1', 'frame': fr}
         elif layer == 'e1-bc':
-            for fr in self._singles(tier, ['b c']):
+            for fr in self._singles(tier, ['b c'], 2):
                 yield {'mode': 'e1', 'frame': fr}
+        elif layer == 'e1-tz':
+            rows = 3 if tier == 'thorough' else 2
+            for fam in FA.TZ_FAMILIES:
+                for col in FA.columns(fam, rows, 'a'):
+                    yield {'mode': 'e1', 'frame': {'cols': [col]}}
+        elif layer == 'e1-rexs':
+            thorough = tier == 'thorough'
+            for fam in (['rexs', 'rexscat'] if thorough else ['rexs']):
+                for col in FA.rex_structured_columns(thorough, 'a', fam):
+                    c = {'mode': 'e1', 'frame': {'cols': [col]},
+                         'rex': [True]}
+                    if not thorough:
+                        # the three two-valued options covered pairwise
+                        # (4 of the 8 pipelines); thorough runs all 8
+                        c['pairwise'] = True
+                    yield c
         elif layer == 'e1-names':
             for fr in self._singles('quick', FA.NAMES[1:]):
                 yield {'mode': 'e1', 'frame': fr}
@@ -238,9 +277,10 @@ class C01(Check):
         for c in cols:
             k = FA.plain_column(c)[0] or 'string'
             if k == 'date':
-                k += ('(tz)' if c['fam'].startswith('dttz') else
+                tzc = FA.tz_class(c['fam'])
+                k += ('(tz%s)' % tzc if tzc is not None else
                       '(dateobj)' if c['fam'] == 'dateobj' else '')
-            if k == 'string' and c['fam'].startswith('cat'):
+            if k == 'string' and FA.FAMILIES[c['fam']]['dtype'] == 'category':
                 k += '(cat)'
             if k not in ks:
                 ks.append(k)
@@ -390,12 +430,15 @@ class C01(Check):
         return 'ok' if ok else 'bad'
 
     # --------------------------------------------------------------------- E1
-    def run_e1(self, R, frame):
+    PAIRWISE = [('dict', 'verify', True), ('file', 'verify', False),
+                ('dict', 'detect', False), ('file', 'detect', True)]
+
+    def run_e1(self, R, frame, rexes=(False, True), pairwise=False):
         pristine = FA.build_frame(frame)
         sig0 = frame_state(pristine)
         df = FA.build_frame(frame)
         outcome = []
-        for rex in (False, True):
+        for rex in rexes:
             sub0 = {'rex': rex}
             self.reset()
             c, d = self.discover(R, frame, df, rex, sub0)
@@ -415,9 +458,12 @@ class C01(Check):
                                            'exception': repr(e)[:300]}, sub0)
                 continue
             good = 0
-            for route in ('dict', 'file'):
-                for fn in ('verify', 'detect'):
-                    for repair in (True, False):
+            combos = self.PAIRWISE if pairwise else [
+                (ro, fn, rp) for ro in ('dict', 'file')
+                for fn in ('verify', 'detect') for rp in (True, False)]
+            if True:
+                if True:
+                    for (route, fn, repair) in combos:
                         sub = {'rex': rex, 'route': route, 'fn': fn,
                                'repair': repair}
                         cons = d if route == 'dict' else self.tddapath
@@ -433,7 +479,7 @@ class C01(Check):
                         if frame_state(df) != sig0:
                             outcome.append('mutated')
                             df = FA.build_frame(frame)
-            outcome.append('%d/8' % good)
+            outcome.append('%d/%d' % (good, len(combos)))
             sh = '|'.join('%s{%s}' % (fc.get('type'), ','.join(
                 k[:4] + ('=' + str(fc[k]) if k in ('sign', 'max_nulls')
                          else '=%d' % len(fc[k]) if k == 'rex' else '')
@@ -611,8 +657,12 @@ class C01(Check):
 
     def child_case(self, case):
         R = Res()
+        # rexpy samples (global PRNG) beyond 100 distinct strings: fix the
+        # state the child starts from so that explorer and replay agree
+        random.seed(20260927)
         if case['mode'] == 'e1':
-            self.run_e1(R, case['frame'])
+            self.run_e1(R, case['frame'], case.get('rex') or (False, True),
+                        bool(case.get('pairwise')))
         else:
             self.run_e3(R, case['frame'], case['depth'])
         self.reset()
